@@ -1,10 +1,10 @@
-import Driver.Common
-/-! Judge for C01: not built yet (stub so that the target exists). -/
+import Driver.MuxJudge
+/-! Judge for C01 (HTTP routing): the shared mux judge of `Driver/MuxJudge.lean`. -/
 open Lean Driver
 
 namespace Driver.C01
 
-def judges : List (String × Judge) := []
+def judges : List (String × Judge) := [("C01", MuxJudge.judge false)]
 
 end Driver.C01
 
